@@ -20,6 +20,13 @@
  *                             allocation
  *   C05.inode.wf_dir_index    ext. directories: the index blob is exactly the
  *                             entries delivered, each 12 + size + 1 bytes
+ *   C05.inode.determined      every byte of the returned object is determined
+ *                             by the image: what no read delivered and no
+ *                             field assignment set is zero (unused tail of the
+ *                             type union, payload bytes beyond payload_bytes_
+ *                             used: the NUL behind a symlink target) - so the
+ *                             object does not depend on what the allocator
+ *                             handed back (C10: on earlier queries)
  *   C05.inode.reject_unknown  a type outside 1..14 => SQFS_ERROR_UNSUPPORTED
  *   C05.inode.fail_clean      ret != 0 => a reader call failed, or allocation
  *                             failed, or overflow / unsupported was reported
@@ -30,7 +37,10 @@
 #include <string.h>
 #include <errno.h>
 #include "verif.h"
-#define ENV_PROP "C05"
+#ifndef ENV_PROP
+#define ENV_PROP "C05"	/* harness/C10/read_inode.c re-uses this file */
+#endif
+#define INO(s) ENV_PROP ".inode." s
 #define ENV_NO_MEM_OVERRIDE
 #include "C10/rd_env.h"
 
@@ -62,6 +72,24 @@ static sqfs_u64 spec_block_count(sqfs_u64 size, sqfs_u64 bs, sqfs_u32 fidx,
 	if (size % bs != 0 && (fidx == 0xFFFFFFFF || foff == 0xFFFFFFFF))
 		n += 1;
 	return n;
+}
+
+/* bytes of the `data` union that belong to the on-disk record of a type */
+static size_t spec_union_used(unsigned type)
+{
+	switch (type) {
+	case 1: return sizeof(sqfs_inode_dir_t);
+	case 2: return sizeof(sqfs_inode_file_t);
+	case 3: return sizeof(sqfs_inode_slink_t);
+	case 4: case 5: return sizeof(sqfs_inode_dev_t);
+	case 6: case 7: return sizeof(sqfs_inode_ipc_t);
+	case 8: return sizeof(sqfs_inode_dir_ext_t);
+	case 9: return sizeof(sqfs_inode_file_ext_t);
+	case 10: return sizeof(sqfs_inode_slink_ext_t);
+	case 11: case 12: return sizeof(sqfs_inode_dev_ext_t);
+	case 13: case 14: return sizeof(sqfs_inode_ipc_ext_t);
+	}
+	return 0;
 }
 
 static unsigned spec_ifmt(unsigned type)
@@ -103,20 +131,36 @@ void harness(void)
 
 	VERIF_ASSERT(g_mrc.seeks == 1 && g_mrc.s[0].seq == 1 &&
 		     g_mrc.s[0].to.block == block_start + super.inode_table_start &&
-		     g_mrc.s[0].to.off == offset, "C05.inode.seeks_to_ref");
+		     g_mrc.s[0].to.off == offset, INO("seeks_to_ref"));
 	if (ret == 0) {
-		VERIF_ASSERT(ino != NULL && !g_mrc.failed, "C05.inode.fail_clean");
-		VERIF_ASSERT(ITYPE >= 1 && ITYPE <= 14, "C05.inode.reject_unknown");
+		VERIF_ASSERT(ino != NULL && !g_mrc.failed, INO("fail_clean"));
+		VERIF_ASSERT(ITYPE >= 1 && ITYPE <= 14, INO("reject_unknown"));
 		VERIF_ASSERT(ino->base.type == ITYPE &&
 			     (ino->base.mode & 0170000) == spec_ifmt(ITYPE),
-			     "C05.inode.wf_type");
+			     INO("wf_type"));
 		extra_bytes = VERIF_OBJECT_SIZE(ino) - sizeof(*ino);
-#ifndef VERIF_REPLAY
+#if !defined(VERIF_REPLAY) && !defined(INO_ONLY_DETERMINISM)
 		VERIF_ASSERT(VERIF_OBJECT_SIZE(ino) >= sizeof(*ino) &&
 			     ino->payload_bytes_used <= ino->payload_bytes_available &&
 			     ino->payload_bytes_available <= extra_bytes,
-			     "C05.inode.wf_payload");
+			     INO("wf_payload"));
 #endif
+		{
+			/* witness byte: anything not delivered / assigned is 0 */
+			size_t w = verif_nd_size("w");
+			size_t u0 = offsetof(sqfs_inode_generic_t, data) +
+				spec_union_used(ITYPE);
+			const sqfs_u8 *raw = (const sqfs_u8 *)ino;
+#ifndef VERIF_REPLAY
+			if (w >= u0 && w < sizeof(*ino))
+				VERIF_ASSERT(raw[w] == 0, INO("determined"));
+			if (w >= sizeof(*ino) + ino->payload_bytes_used &&
+			    w < VERIF_OBJECT_SIZE(ino))
+				VERIF_ASSERT(raw[w] == 0, INO("determined"));
+#else
+			(void)w; (void)u0; (void)raw;
+#endif
+		}
 		if (ITYPE == SQFS_INODE_FILE) {
 			sqfs_u64 n = spec_block_count(ino->data.file.file_size,
 				super.block_size, ino->data.file.fragment_index,
@@ -124,7 +168,7 @@ void harness(void)
 			VERIF_ASSERT(ino->payload_bytes_used == n * 4 &&
 				     g_mrc.r[2].buf == (void *)ino->extra &&
 				     g_mrc.r[2].n == n * 4,
-				     "C05.inode.wf_file_blocks");
+				     INO("wf_file_blocks"));
 		} else if (ITYPE == SQFS_INODE_EXT_FILE) {
 			sqfs_u64 n = spec_block_count(ino->data.file_ext.file_size,
 				super.block_size, ino->data.file_ext.fragment_idx,
@@ -132,7 +176,7 @@ void harness(void)
 			VERIF_ASSERT(ino->payload_bytes_used == n * 4 &&
 				     g_mrc.r[2].buf == (void *)ino->extra &&
 				     g_mrc.r[2].n == n * 4,
-				     "C05.inode.wf_file_blocks");
+				     INO("wf_file_blocks"));
 		} else if (ITYPE == SQFS_INODE_SLINK || ITYPE == SQFS_INODE_EXT_SLINK) {
 			sqfs_u32 tsz = ino->data.slink.target_size;
 			VERIF_ASSERT(ino->payload_bytes_used == tsz &&
@@ -140,7 +184,7 @@ void harness(void)
 				     ((const char *)ino->extra)[tsz] == '\0' &&
 				     g_mrc.r[2].buf == (void *)ino->extra &&
 				     g_mrc.r[2].n == tsz,
-				     "C05.inode.wf_slink_nul");
+				     INO("wf_slink_nul"));
 		} else if (ITYPE == SQFS_INODE_EXT_DIR) {
 			/* NIDX complete entries (or none for an empty dir) */
 			size_t want = 0;
@@ -157,17 +201,17 @@ void harness(void)
 			}
 			VERIF_ASSERT(complete && ino->payload_bytes_used == want &&
 				     ino->data.dir_ext.inodex_count == NIDX,
-				     "C05.inode.wf_dir_index");
+				     INO("wf_dir_index"));
 		}
 	} else {
 		VERIF_ASSERT(g_mrc.failed || ret == SQFS_ERROR_ALLOC ||
 			     ret == SQFS_ERROR_OVERFLOW ||
 			     (ret == SQFS_ERROR_UNSUPPORTED &&
 			      (ITYPE < 1 || ITYPE > 14)),
-			     "C05.inode.fail_clean");
+			     INO("fail_clean"));
 	}
 	if (ITYPE < 1 || ITYPE > 14)
-		VERIF_ASSERT(ret != 0, "C05.inode.reject_unknown");
+		VERIF_ASSERT(ret != 0, INO("reject_unknown"));
 
 	VERIF_COVER(ret == 0 || ITYPE < 1 || ITYPE > 14);
 	VERIF_COVER(ret != 0 && g_mrc.failed);
